@@ -85,3 +85,26 @@ Proof.
   destruct (Req_dec (M i j) 0) as [|Hne]; [assumption|].
   assert (Hnz : nonzero_matrix n M) by (exists i, j; auto). pose proof (trG_pos n M Hnz). lra.
 Qed.
+
+(* the division is undefined exactly for the zero matrix (on the index range) *)
+Lemma zero_matrix_trG2 n M : (forall i j, (i < n)%nat -> (j < n)%nat -> M i j = 0) -> trG2 ROps n M = 0 /\ trG ROps n M = 0.
+Proof.
+  intros H.
+  assert (HG : forall j j', (j < n)%nat -> G n M j j' = 0).
+  { intros j j' Hj. unfold G, gram. change (gsum ROps) with rsum. apply rsum_zero. intros i Hi. cbn [omul ROps]. rewrite (H i j Hi Hj). ring. }
+  split.
+  - rewrite trG2_sq. apply rsum_zero. intros j Hj. apply rsum_zero. intros j' _. rewrite (HG j j' Hj). ring.
+  - unfold trG. change (gsum ROps) with rsum. fold (G n M). apply rsum_zero. intros j Hj. apply HG. exact Hj.
+Qed.
+
+Theorem trG2_zero_iff n M : trG2 ROps n M = 0 <-> (forall i j, (i < n)%nat -> (j < n)%nat -> M i j = 0).
+Proof.
+  split.
+  - intros H0. apply trG_zero_matrix.
+    pose proof (trG_sq_le_n n M) as Hle. rewrite H0, Rmult_0_r in Hle.
+    pose proof (trG_nonneg n M). nra.
+  - intros H. apply (zero_matrix_trG2 n M H).
+Qed.
+
+Theorem trG_zero_iff n M : trG ROps n M = 0 <-> (forall i j, (i < n)%nat -> (j < n)%nat -> M i j = 0).
+Proof. split; [apply trG_zero_matrix|intros H; apply (zero_matrix_trG2 n M H)]. Qed.
